@@ -246,6 +246,39 @@ def main(tier):
                 idb += 100000
                 all_scens += s2
                 results.update(r2)
+    # 3b. S->I: behaviours of the specification (TLC -simulate), replayed as forced schedules on the real walker
+    nsim = 120 if tier == "quick" else 2000
+    followed = 0
+    sim_scens = []
+    for nthreads in (2, 3):
+        cfgp = os.path.join(vlib.WORK, "c07", "Walk_sim_n%d_%d.cfg" % (nthreads, os.getpid()))
+        os.makedirs(os.path.dirname(cfgp), exist_ok=True)
+        with open(cfgp, "w") as f:
+            f.write(open(os.path.join(vlib.SPECS, "walk", "Walk_sim.cfg")).read().replace("N = 2", "N = %d" % nthreads))
+        sim = vlib.tlc("walk/MCWalkSim", cfgp, workers=1, timeout=900, simulate=nsim, depth=200, tlc_seed=vlib.seed() + nthreads)
+        chk.add_tlc(sim)
+        for b in sim.emits():
+            ch = b["ch"]
+            parent = {}
+            for p, kids in enumerate(ch, 1):
+                for c in kids:
+                    parent[c] = p
+
+            def path(n):
+                return (path(parent[n]) + "/" if n in parent else "") + "n%d" % n
+            tree = [path(n) + ("/" if ch[n - 1] else "") for n in range(1, len(ch) + 1)]
+            idb += 1
+            sim_scens.append({"id": idb, "tree": tree, "roots": [path(r) for r in b["roots"]], "threads": nthreads, "seed": idb,
+                              "mode": "random", "forced": [w for w, pcw in b["h"] if pcw != "visit"], "quit": [path(n) for n in b["quit"]],
+                              "max_steps": 5000})
+    r3 = run_recorder_parallel(sim_scens, nproc=8)
+    for sc3 in sim_scens:
+        if r3[sc3["id"]]["choices"][:len(sc3["forced"])] == sc3["forced"]:
+            followed += 1
+    all_scens += sim_scens
+    results.update(r3)
+    chk.extra["spec_behaviours_replayed"] = len(sim_scens)
+    chk.extra["spec_behaviours_followed_exactly"] = followed
     chk.evaluations += len(all_scens)
     # judge
     ok_scens = []
@@ -268,7 +301,7 @@ def main(tier):
     # 4. trace validation by TLC
     validate_traces(chk, ok_scens, results, "runs")
     chk.extra["schedules_random_pct"] = len(scens)
-    chk.extra["schedules_bounded_preemption"] = len(all_scens) - len(scens)
+    chk.extra["schedules_bounded_preemption"] = len(all_scens) - len(scens) - len(sim_scens)
     chk.extra["preemption_bound"] = "%d (%d on the smallest tree)" % (bound, bound + 1)
     return chk.finish()
 
